@@ -177,9 +177,11 @@ func (w *world) whole(t *rt.Tape, trace bool, res *core.Result) *core.Result {
 	// larger bulk read would not.
 	var garbleRand func(io.Reader) io.Reader
 	if t.Choose(rt.SGen, 4) == 0 {
-		block := []int{64, 1024, 4096, 160}[t.Choose(rt.SGen, 4)]
+		// (also blocks shorter than a label - a source that hands out 1, 5 or 7 bytes at a time is as
+		// legal an io.Reader as a buffered one)
+		block := []int{64, 1024, 4096, 160, 1, 5, 7, 24}[t.Choose(rt.SGen, 8)]
 		garbleRand = func(r io.Reader) io.Reader { return &simrand.ShortReader{R: r, Block: block} }
-		res.Reach["garbler-randomness.short-reads-at-block-boundaries"]++
+		res.Reach["garbler-randomness.short-reads"]++
 	}
 	sess := twopc.Session{Circ: circ, X: new(big.Int).Set(in[0]), Y: new(big.Int).Set(in[1]), OT: kind, Pipe: pipe, Trace: trace && !tamper, GarbleRand: garbleRand}
 	// One untampered case in four: the garbler process serves a second session
